@@ -269,3 +269,51 @@ func H20_two_requests() {
 	vrtReach("C20.two_requests")
 	svc.stop()
 }
+
+// H20_last_messages: the server delivers application messages and closes the
+// connection right behind them (the bytes and the end of the stream reach the
+// client's receiver together, possibly in one Read): every message the server
+// delivered is still handed to the callback exactly once.
+func H20_last_messages() {
+	svc, c := vrtClientService()
+	cln := &Client{svc: svc}
+	var seen [][]byte
+	cb := OnPublishFunc(func(m *message.PublishMessage) error {
+		seen = append(seen, append([]byte(nil), m.Payload()...))
+		return nil
+	})
+	sm := message.NewSubscribeMessage()
+	sm.AddTopic([]byte("t"), 1)
+	vrtAssert("C20.subscribe_call_ok", cln.Subscribe(sm, nil, cb) == nil)
+	vrtQuiesce()
+	req, okr := vrtParse(c.peerTake())
+	if !okr || len(req) != 1 || req[0].Typ != specSUBSCRIBE {
+		vrtAssert("C20.subscribe_on_the_wire", false)
+		return
+	}
+	c.peerSend(specEncode(&specPkt{Typ: specSUBACK, ID: req[0].ID, Codes: []byte{1}}))
+	vrtQuiesce()
+	n := 1 + vrtChoice("messages", 3)
+	q := byte(vrtChoice("qos", 2))
+	var last []byte
+	for i := 0; i < n; i++ {
+		pk := &specPkt{Typ: specPUBLISH, Flags: q << 1, Topic: []byte("t"), Payload: []byte{byte('a' + i)}}
+		if q > 0 {
+			pk.ID = uint16(20 + i)
+		}
+		last = append(last, specEncode(pk)...)
+	}
+	c.mu.Lock()
+	c.eofWithLast = vrtBool("eof_with_last_bytes")
+	c.peerClosed = true
+	c.in = append(c.in, last...)
+	c.cond.Broadcast()
+	c.mu.Unlock()
+	vrtQuiesce()
+	vrtAssert("C20.callback_once_per_matching_message", len(seen) == n)
+	for i := 0; i < len(seen) && i < n; i++ {
+		vrtAssert("C20.callback_gets_the_message", len(seen[i]) == 1 && seen[i][0] == byte('a'+i))
+	}
+	vrtReach("C20.last_messages")
+	svc.stop()
+}
